@@ -420,6 +420,11 @@ func (icfg *internalConfig) processACRH(
 	if !found {
 		return true
 	}
+	if len(acrh) == 0 {
+		// An ACRH key associated with an empty slice corresponds to no ACRH
+		// field line at all; treat it like an absent key (as headers.First does).
+		return true
+	}
 	if icfg.asteriskReqHdrs && !icfg.credentialed {
 		if icfg.allowAuthorization {
 			// According to the Fetch standard, the wildcard does not cover
